@@ -268,12 +268,13 @@ def record(src):
                 cols = [[tri(mtt[o][ri]) for o in range(m)] for ri in range(2 ** n)]
 
                 stored = (n + sum(sum(row) for row in mtt)) % 3 == 0   # the callable hands out its own stored rows
+                as_tuple = (n + sum(sum(row) for row in mtt)) % 3 == 1   # ... or answers with tuples (a legal Sequence)
 
                 def lookup(args):
                     idx = 0
                     for a in args:
                         idx = idx * 2 + (1 if a else 0)
-                    return cols[idx] if stored else list(cols[idx])
+                    return cols[idx] if stored else (tuple(cols[idx]) if as_tuple else list(cols[idx]))
 
                 if n == 2 and (m + sum(sum(row) for row in mtt)) % 2:
                     model = PyFunctionModel.from_positional(lambda a, b: lookup([a, b]))
@@ -294,7 +295,19 @@ def record(src):
                 case['res'] = _rowsets([list(fn.evaluate(list(x))) for x in rows], m)
         except Exception as e:
             case['exc'] = type(e).__name__
-        return case
+            return case
+        # the completed function is a function like any other: every protocol query is asked of it too
+        try:
+            full = [[(mtt[o][ri] if mtt[o][ri] != 2 else next(d['v'] for d in defs if d['r'] == ri and d['o'] == o + 1)) for ri in range(2 ** n)] for o in range(m)]
+            fcase = {'kind': 'fn', 'n': n, 'm': m, 'tt': [[ri for ri, v in enumerate(row) if v == 1] for row in full], 'rep': 'completed-' + src['rep'],
+                     'exc': '', 'ans': {}, 'src': src}
+            try:
+                fcase['ans'] = _answers(fn, n, m)
+            except Exception as e:
+                fcase['exc'] = type(e).__name__
+            return [case, fcase]
+        except Exception:
+            return case
     if src['k'] == 'intfn':
         case = {'kind': 'intfn', 'f': src['f'], 'inlen': src['inlen'], 'outlen': src['outlen'], 'big': src['big'], 'binary': src['binary'], 'exc': '', 'rows': [], 'src': src}
         try:
